@@ -55,19 +55,22 @@ for sd, (prop, needs, checks) in SEEDS.items():
     if only and name not in only:
         continue
     src = "/tmp/" + sd
-    if not os.path.isdir(src):
-        print("missing", src); continue
-    patch = src + "/patch_rebased.diff" if os.path.exists(src + "/patch_rebased.diff") else src + "/patch.diff"
     out = "/verif/seeded/" + name
-    os.makedirs(out, exist_ok=True)
-    shutil.copy(patch, out + "/patch.diff")
-    shutil.copy(src + "/demo.rs", out + "/demo.rs")
-    if os.path.exists(src + "/README.md"):
-        shutil.copy(src + "/README.md", out + "/notes.md")
+    if os.path.isdir(src):
+        patch = src + "/patch_rebased.diff" if os.path.exists(src + "/patch_rebased.diff") else src + "/patch.diff"
+        os.makedirs(out, exist_ok=True)
+        shutil.copy(patch, out + "/patch.diff")
+        shutil.copy(src + "/demo.rs", out + "/demo.rs")
+        if os.path.exists(src + "/README.md"):
+            shutil.copy(src + "/README.md", out + "/notes.md")
+    elif not os.path.exists(out + "/patch.diff"):
+        print("missing", src); continue
     conf = {}
     cj = "/tmp/confirm/" + sd.replace("seed-", "").replace("seed2-", "r2_").replace("seed3-", "r3_").replace("seed4-", "r4_").replace("seed5-", "r5_").replace("seed6-", "r6_").replace("seed7-", "r7_").replace("seed8-", "r8_").replace("/", "_") + ".json"
     if os.path.exists(cj):
         conf = json.load(open(cj))
+    elif os.path.exists(out + "/meta.json"):
+        conf = json.load(open(out + "/meta.json")).get("confirmed_in_scratch_worktree", {})
     r = subprocess.run(["git", "-C", "/repo", "apply", out + "/patch.diff"], capture_output=True, text=True)
     results = {}
     if r.returncode != 0:
